@@ -47,6 +47,21 @@ def run(ck):
     if len(m_param) != 1 or len(t_param) != 1:
         raise AnalysisError(f"{finit.where}: cannot tell minScore / breakSegmentThreshold apart among {fparams}")
     m_param, t_param = m_param[0], t_param[0]
+    # a threshold that is stored in altered form (e.g. `x or float("inf")`, `abs(x)`) no longer is the configured one
+    for prm in (m_param, t_param):
+        if prm in fattr:
+            continue
+        for n in ast.walk(finit.node):
+            if isinstance(n, ast.Assign) and len(n.targets) == 1 and isinstance(n.targets[0], ast.Attribute) \
+                    and isinstance(n.targets[0].value, ast.Name) and n.targets[0].value.id == finit.self_name \
+                    and not isinstance(n.value, ast.Name) \
+                    and any(isinstance(x, ast.Name) and x.id == prm for x in ast.walk(n.value)):
+                ck.violation("C13.1", f"AlignmentSegmentsFactory.__init__:{prm}:altered", where(finit, n),
+                             f"the configured {prm} is stored in altered form: the thresholds the builder compares against are no "
+                             f"longer the configured ones for every value (e.g. a configured 0 is falsy)",
+                             found=ast.unparse(n)[:140], required=f"self.{n.targets[0].attr} = {prm}")
+                fattr[prm] = n.targets[0].attr
+                break
 
     # ---- constructor guard
     n_raise = 0
